@@ -90,6 +90,17 @@ func VerifC18_WholeSimulationHasNoSideEffects() {
 	rec := &stubs.Recorder{}
 	its := []*cloudprovider.InstanceType{uType("it-m", "4"), uType("it-l", "8")}
 	cp.InstanceTypes = its
+	// what the provider handed out, before anything of Karpenter has looked at it
+	var offered [][]*cloudprovider.Offering
+	var offeredAvailable [][]bool
+	for _, it := range its {
+		offered = append(offered, append([]*cloudprovider.Offering{}, it.Offerings...))
+		var av []bool
+		for _, o := range it.Offerings {
+			av = append(av, o.Available)
+		}
+		offeredAvailable = append(offeredAvailable, av)
+	}
 	pool := &v1.NodePool{}
 	pool.Name, pool.UID = "pool-1", "uid-pool-1"
 	pool.Spec.Template.Spec.NodeClassRef = &v1.NodeClassReference{Group: stubs.NodeClassGroup, Kind: stubs.NodeClassKind, Name: "default"}
@@ -194,9 +205,16 @@ func VerifC18_WholeSimulationHasNoSideEffects() {
 	for _, call := range kc.Log[writes:] {
 		verifrt.Assert(call.Verb == "get" || call.Verb == "list", "a simulation writes no API object")
 	}
-	for _, it := range its {
-		for _, o := range it.Offerings {
-			verifrt.Assert(o.ReservationCapacity == 0, "offerings are not modified by a simulation")
+	same := true
+	for k, it := range its {
+		same = same && len(it.Offerings) == len(offered[k])
+		for j := range offered[k] {
+			if j < len(it.Offerings) {
+				same = same && it.Offerings[j] == offered[k][j]
+			}
+			av := offered[k][j].Available == offeredAvailable[k][j]
+			same = same && av && offered[k][j].ReservationCapacity == 0
 		}
 	}
+	verifrt.Assert(same, "the provider's instance types list the same offerings, in the same order and with the same availability, after a simulation")
 }
